@@ -257,6 +257,8 @@ type Live struct {
 	// Patience: when the server is quiescent and has written nothing, wait that long (virtual clock) once more
 	// before concluding that there is no answer - for backends that take their time (Backend.SlowAbort).
 	Patience time.Duration
+	// Pace: the client lets that much (virtual) time pass before every Send - a slow but steady peer.
+	Pace time.Duration
 }
 
 // NewLive starts the handler for one connection. implicitTLS wraps the
@@ -321,6 +323,9 @@ func (l *Live) Greeting() []byte { return l.collect() }
 // Send writes the segments (each becomes one raw read of the server, unless
 // TLS is active) and returns what the server answered once it is quiescent.
 func (l *Live) Send(segs ...[]byte) []byte {
+	if l.Pace > 0 {
+		time.Sleep(l.Pace)
+	}
 	for _, s := range segs {
 		l.Sent = append(l.Sent, s...)
 		if l.TLS != nil {
